@@ -105,10 +105,17 @@ CLAIMED.update({
     ref="DESIGN.md §4 C07"),
 })
 
+CLAIMED.update({
+  "C16": dict(
+    text="The frame-height clause, decided by static abstract interpretation of the layout code in a line-count domain: every string value is abstracted to the number of its lines as a linear form over symbols (one per parameter or opaque value), slices of lines to their length, evaluated along every acyclic path of the function with the branch facts of the path as hypotheses and discharged by a small linear-inequality prover (equalities eliminated first); the transfer functions are summaries of strings.Count/Split/Join/Repeat/LastIndex/Contains, concatenation, slicing (bounds must be provable), unsigned subtraction (no wrap-around must be provable) and division/remainder by a constant. Decided: ansi.Height counts lines; on every path of ansi.CenterVertically the result has exactly `height` lines and the rows above the centred text are floor(spare/2) (spare rows split evenly, the odd one below); ansi.ReplaceLastLine keeps the number of lines of a frame of at least two rows and consists of the original up to its last line feed plus the replacement; every return of ui.(*State).view is such a frame for uint(s.height), the status line put in by ReplaceLastLine only; every call of the terminal callback in the module passes view() of the same state. All heights >= 2 and all contents are covered because line counts are symbolic.",
+    note="Assumed: terminal height >= 2 (the property's own precondition); library semantics as summarised in checker/lines.go; main.printRaw writes the frame unchanged apart from CR LF translation. Not decided: which item is highlighted and what the lines contain, heights below 2, states reached by key histories (C07), what the terminal does with the frame.",
+    technique="static abstract interpretation in a line-count domain (linear forms per enumerated path, branch facts as hypotheses, linear-inequality prover) + call-site inventory of the terminal callback",
+    ref="DESIGN.md §4 C16"),
+})
+
 NOT_APPLICABLE = {
   "C13": "content preservation / line-length bounds of Wrap, DumbWrap, Pad, Indent, Snip are relations between input and output string values for all strings and widths; no sound static argument over the code's shape decides them (DESIGN.md §5)",
   "C14": "per-character attribute sets after arbitrary nesting and layout are string values; the structural facts available (single SGR emitter) are not necessary conditions of this property (DESIGN.md §5)",
-  "C16": "frame-height identity is integer arithmetic over line counts inside CenterVertically; needs a relational numeric domain / solver, and the only structural clause would report 'holds' on a tree where the property is known to fail (DESIGN.md §5)",
   "C18": "refinement of History/Feed against list models over all operation sequences is a statement about integer and slice values over histories; not visible in the shape of the code (DESIGN.md §5)",
 }
 
